@@ -136,7 +136,4 @@ def run(tier):
 
 
 def replay(path):
-    d = json.load(open(path))
-    h = d["history"]
-    log(f"replaying {stream.shape(h)} under {d['config']}")
-    return 0
+    return core.generic_replay(path)
